@@ -216,6 +216,12 @@ partial def chainBreak (x : Node) (seen : Bool) : Bool × Bool :=
 def hasPostfixAfterNewline (n : Node) : Bool :=
   anyNode (fun x => x.name = "identifier" && (chainBreak x false).1) n
 
+/-- class `bare-return-at-end`: the printed text ends with a bare `return` (the last statement of the program);
+    without a trailing newline the parser reads the end of the input as the value of the return -/
+def endsWithBareReturn (n : Node) : Bool :=
+  let bare (x : Node) := x.name = "return" && x.children.isEmpty
+  bare n || (n.name = "statements" && (match n.children.getLast? with | some (some c) => bare c | _ => false))
+
 def runCase (payload : String) : String :=
   match payload.splitOn " " with
   | _src :: flags :: rest =>
@@ -239,7 +245,8 @@ def runCase (payload : String) : String :=
           match Ecal.C08.toExpr ast #[] with
           | some (e, atoms) =>
             let toks := Ecal.C08.printToks Ecal.C08.realPowers Ecal.C08.realExc e
-            let t := Ecal.C08.render atoms toks
+            -- PrettyPrint trims the whole text (an indented keyword at the very start loses its indent)
+            let t := trimSpace (Ecal.C08.renderP atoms none (Ecal.C08.annot Ecal.C08.realPowers Ecal.C08.realExc e))
             let exc := Ecal.C08.hasExc Ecal.C08.realExc e
             if t != txt then (some ("MODEL-DRIFT expr=" ++ hexEnc t ++ " full=" ++ hexEnc txt), true)
             else if exc != mul then (some "CLASSIFIER-DRIFT", true)
@@ -250,12 +257,14 @@ def runCase (payload : String) : String :=
         match drift with
         | some d => d
         | none =>
-          let rt := if post then "*" else if raw || mul || sign then "diff" else "ok"
-          let idem := if wild then "*" else if sign then "diff" else "ok"
+          let eret := endsWithBareReturn ast
+          let rt := if post then "*" else if eret then "noparse" else if raw || mul || sign then "diff" else "ok"
+          let idem := if wild then "*" else if eret then "na" else if sign then "diff" else "ok"
           let line (rt : String) := "txt=" ++ hexEnc txt ++ " rt=" ++ rt ++ " idem=" ++ idem ++
             (if ff then " ff=ok" else "") ++ (if ev = "1" && rt = "ok" then " beh=ok" else "")
           let kf : Option String :=
             if post then some "newline-inside-statement"
+            else if eret then some "bare-return-at-end"
             else if sign then some "stmt-starts-with-sign"
             else if raw then some "raw-string-kind"
             else if mul then some "mul-right-brackets"
